@@ -8,14 +8,19 @@ namespace coloquinte {
 DetailedPlacement DetailedPlacement::fromIspdCircuit(const Circuit &circuit) {
   // Represent fixed cells with -1 width so they are not considered
   int rowHeight = circuit.rowHeight();
-  std::vector<int> widths = circuit.cellWidth_;
+  // Use the placed dimensions, which depend on the orientation
+  std::vector<int> widths;
+  widths.reserve(circuit.nbCells());
+  for (int c = 0; c < circuit.nbCells(); ++c) {
+    widths.push_back(circuit.placedWidth(c));
+  }
   std::vector<Rectangle> obstacles;
   for (int c = 0; c < circuit.nbCells(); ++c) {
     if (circuit.cellIsFixed_[c]) {
       // Fixed obstructions are already removed from the rows by computeRows;
       // other fixed cells do not block anything
       widths[c] = -1;
-    } else if (circuit.cellHeight_[c] != rowHeight) {
+    } else if (circuit.placedHeight(c) != rowHeight) {
       widths[c] = -1;
       Rectangle pl = circuit.placement(c);
       obstacles.push_back(pl);
@@ -43,7 +48,7 @@ DetailedPlacement DetailedPlacement::fromIspdCircuit(const Circuit &circuit,
       continue;
     }
     Rectangle pl = circuit.placement(c);
-    if (circuit.cellHeight_[c] != rowHeight) {
+    if (circuit.placedHeight(c) != rowHeight) {
       obstacles.push_back(pl);
     } else if (region.contains(pl)) {
       cellIndex.push_back(c);
@@ -83,7 +88,7 @@ DetailedPlacement DetailedPlacement::fromIspdCircuit(const Circuit &circuit,
   std::vector<CellRowPolarity> cellPolarity(cellIndex.size());
   for (size_t i = 0; i < cellIndex.size(); ++i) {
     int c = cellIndex[i];
-    widths[i] = circuit.cellWidth()[c];
+    widths[i] = circuit.placedWidth(c);
     cellX[i] = circuit.cellX()[c];
     cellY[i] = circuit.cellY()[c];
     cellOrientation[i] = circuit.cellOrientation()[c];
